@@ -32,7 +32,7 @@ func main() {
 		}
 		cov := schedx.Coverage(r, scenarios, map[string]any{
 			"fidelity_evaluations": r.P.Counters["fid_evaluations"], "fidelity_nontrivial": r.P.Counters["fid_nontrivial"],
-			"config_sequence_evaluations": r.P.Counters["cfgseq_evaluations"], "config_sequence_multi_call": r.P.Counters["cfgseq_multi_call"],
+			"config_sequence_evaluations": r.P.Counters["cfgseq_evaluations"], "config_sequence_multi_call": r.P.Counters["cfgseq_multi_call"], "file_reader_evaluations": r.P.Counters["reader_evaluations"], "file_reader_fault_evaluations": r.P.Counters["reader_fault_evaluations"],
 			"jar_depth": jarDepth, "jar_alphabet": fmt.Sprint(jarAlpha), "jar_histories": r.P.Counters["jar_histories"], "jar_unreproduced": r.P.Counters["jar_unreproduced"],
 			"rule": "Part C: all interleavings (within the stated preemption / select-choice bounds) of caller threads, execFunc's worker goroutine, response arrival, transport failure and context cancellation at the scheduling points done-flag CAS/Swap, pool Get/Put (errChan, Response, Request), channel send/receive/select readiness, client mutex operations, and the round-tripper seam; oracle: every (resp, nil) carries echo(id) of its own request, errors are ErrTimeoutOrCancel only after a cancel and the injected transport error only for the failed request, no blocked goroutine, pooled response clean in the probe phase",
 		})
@@ -46,6 +46,7 @@ func main() {
 			seqDepth = 4
 		}
 		runCfgSequences(r, seqDepth)
+		runReaderBehaviours(r)
 	}
 	enumerateJar(r, jarDepth, jarAlpha)
 	schedx.RunAll(r, scenarios, 0)
